@@ -14,7 +14,7 @@ TOL = {"variational_rel": 1e-8, "accuracy": "10*energy_tolerance(1e-5) + 50*prec
 RULE = ("noiseless ground-rydberg sequences with the DMRG solver, 2-6 atoms (thorough 8): chains / rings / grids with "
         "shuffled labels, one or two pulses with constant or ramped amplitude and detuning (adiabatic-style), optional "
         "DMM and local channel; dt 2..25 incl. non-dividing; precision 1e-5..1e-8; max_bond_dim uncapped or 2/4; "
-        "reordering on/off; Energy, Occupation and StateResult at generated times.  Oracle per evaluation time t>0: "
+        "reordering on/off; one case in ~12 is a long run of 1040 / 2100 time steps on 2-3 atoms; Energy, Occupation and StateResult at generated times.  Oracle per evaluation time t>0: "
         "dense Hamiltonian of the step just finished (independent reference drives of C01) -> numpy eigvalsh; clauses: "
         "E >= E0 - 1e-8*|H| always; E - E0 <= 10*1e-5 + 50*precision*|H| when the gap is >= 0.5 rad/us, N <= 6 and the "
         "bond cap does not bind -- a failure of this clause is attributed: the harness captures the solver's internal MPS and "
@@ -35,7 +35,13 @@ def budget(tier):
 def _cases(draw, n_max=6):
     seq = draw(gen.seq_cases(n_min=2, n_max=n_max, basis="rydberg", allow_mod=False, allow_slm=False, max_ops=2, dur_hi=60, dmin=5.5, dmax=9.0,
                              amp_kinds=("const", "ramp", "blackman"), det_kinds=("const", "ramp")))
-    return {"seq": seq, "dt": draw(st.sampled_from([5, 10, 10, 7, 25, 2])), "precision": 10.0 ** draw(st.sampled_from([-5, -6, -8])),
+    # one case in ~12 is a *long* run (more than 1000 / 2000 time steps on 2-3 atoms): the per-step sweep limit must not
+    # accumulate over the run (fixed finding 504822b)
+    long_steps = draw(st.sampled_from([0] * 11 + [1040, 2100]))
+    if long_steps:
+        seq = draw(gen.seq_cases(n_min=2, n_max=3, basis="rydberg", allow_mod=False, allow_slm=False, max_ops=1, dur_hi=60, dmin=5.5, dmax=9.0,
+                                 amp_kinds=("const", "ramp"), det_kinds=("const", "ramp")))
+    return {"seq": seq, "long_steps": long_steps, "dt": draw(st.sampled_from([5, 10, 10, 7, 25, 2])), "precision": 10.0 ** draw(st.sampled_from([-5, -6, -8])),
             "evals": [draw(gen.eval_time_sets(3))], "max_bond": draw(st.sampled_from([None, None, None, 2, 4])),
             "reorder": draw(st.booleans()), "custom": None, "cutoff": 0.0, "seed": draw(st.integers(0, 2**20))}
 
@@ -62,7 +68,10 @@ def check_case(case) -> Result:
     seq = build.sequence(seqc)
     n = len(seqc["reg"]["ids"])
     T = float(seq.get_duration())
-    if T / float(case["dt"]) > 60:
+    if case.get("long_steps"):
+        case = dict(case, dt=T / case["long_steps"])
+        r.label("long_run")
+    elif T / float(case["dt"]) > 60:
         r.discard = "too many steps"
         return r
     ev = [e for e in case["evals"][0] if e > 0] or [1.0]
